@@ -346,30 +346,41 @@ def acts_of(calls, idmap):
 
 
 def run_impl_robust(ctx, binpath, dcs):
-    """ctx.run_impl with re-runs: a driver shard that was killed from outside (out-of-memory killer, timeout) is re-run
-    completely; when the driver itself crashed (abort, segfault) only the first unanswered case of the shard is the
-    culprit (reported as behaviour), the cases after it are re-run"""
-    KILL = (-9, 137, -15, 143, 124)
+    """ctx.run_impl with ONE re-run: a driver shard that was killed from outside (out-of-memory killer) is re-run once;
+    when the driver itself crashed (abort, segfault) only the first unanswered case of the shard is the culprit (reported
+    as behaviour), the cases after it are re-run.  A shard that ran into the framework's time limit is never re-run, and
+    a driver that reports a run blocked inside the engine ends the check: both are infrastructure errors (exit 2)."""
+    KILL = (-9, 137, -15, 143)
+    TIMEOUT = (124,)
     res = ctx.run_impl(binpath, dcs)
+
+    def died(r):
+        return isinstance(r, dict) and r.get("driver_died")
+    if any(died(r) and r.get("rc") in TIMEOUT for r in res):
+        infra("a driver shard ran into the time limit")
     confirmed = set()
-    for _ in range(4):
-        died = [i for i, r in enumerate(res) if isinstance(r, dict) and r.get("driver_died") and i not in confirmed]
-        if not died:
+    for attempt in range(2):
+        dead = [i for i, r in enumerate(res) if died(r) and i not in confirmed]
+        if not dead:
             break
         rerun = []
-        for i in died:
-            first_of_group = (i - 1) not in died
+        for i in dead:
+            first_of_group = (i - 1) not in dead
             if first_of_group and res[i].get("rc") not in KILL:
                 confirmed.add(i)
             else:
                 rerun.append(i)
-        if not rerun:
+        if not rerun or attempt == 1:
             break
         again = ctx.run_impl(binpath, [dcs[i] for i in rerun])
         for i, r in zip(rerun, again):
             res[i] = r
-    if any(isinstance(r, dict) and r.get("driver_died") and r.get("rc") in KILL for r in res):
-        infra("the driver process was killed from outside or timed out repeatedly (machine overloaded?)")
+    if any(died(r) and (r.get("rc") in KILL + TIMEOUT) for r in res):
+        infra("the driver process was killed from outside again after one re-run (machine overloaded?)")
+    blocked = [r for r in res if isinstance(r, dict) and r.get("blocked")]
+    if blocked:
+        infra("a run did not come back from the engine within its deadline (%s); the remaining cases of that driver process "
+              "were not run" % blocked[0].get("where"))
     return res
 
 
